@@ -22,6 +22,7 @@ def check(ctx):
     provrules.rule_amend_routes(ctx, facts, "R2")
     provrules.rule_mount(ctx, facts, "R3")
     provrules.rule_pairs_keep_orientation(ctx, facts, "R7")
+    provrules.rule_danglings_key_unique(ctx, facts, "R8")
     from .. import scopes
     scopes.rule_scope_always_opened(ctx, facts, "R6")
     c = collector.Collector(ctx, facts)
